@@ -1,5 +1,37 @@
-(* C01 — statements are added when proofs/PolyDomainFacts.v lands. *)
-From Coq Require Import List. Import ListNotations.
-Require Import Py Sem Term Poly Tactics PolyDomain.
-Example C01_model_runs : poly_order None = Some [1; 2; 3; 4; 5]%nat.
-Proof. vm_compute. reflexivity. Qed.
+(* C01 — composition returns a sound abstraction of the exact composition.
+   The translated algebra (gen/AlgebraGen.v, regenerated from iocontract.py on every run) instantiated with the polyhedral
+   primitives (model/PolyDomain.v), for every LP oracle meeting lp_spec 0, every wiring, every vars_to_keep, both simplify
+   flags and EVERY tactic order: C05 (any domain) + the polyhedral DomainSpec instance proved from C04 / C07 / TermFacts.
+   wfpc: unique dict keys, no stored zero coefficient, no variable named "_"; ifpc: duplicate-free interface without "_".
+   Statements only; proofs in proofs/PolyDomainFacts.v. *)
+From Coq Require Import List String Bool QArith Reals.
+Import ListNotations.
+Require Import Py ListsGen ConstGen AlgebraGen AlgebraSpec IfaceSpec Sem Term Poly Tactics PolyDomain PolySpec TermFacts PolyFacts TacticsFacts PolyDomainFacts EqFacts PolyKeepFacts.
+
+(* in every situation where C's assumptions hold and each component honours its contract, both components' assumptions hold and C's guarantees hold *)
+Theorem C01 :
+  forall O : oracle,
+       lp_spec 0 O ->
+       forall (c1 c2 : pcontract O) (keep : option (list var)) (sp : bool) (od : option (list nat))
+         (c : pcontract O) (st : list stats),
+       wfpc c1 ->
+       wfpc c2 ->
+       ifpc c1 ->
+       ifpc c2 ->
+       NoDup (opt_list keep) ->
+       poly_compose_tactics O c1 c2 keep sp od = inl (c, st) ->
+       wfpc c /\
+       (forall rho : val,
+        sat_list rho (c_a c) ->
+        (sat_list rho (c_a c1) -> sat_list rho (c_g c1)) ->
+        (sat_list rho (c_a c2) -> sat_list rho (c_g c2)) ->
+        sat_list rho (c_a c1) /\ sat_list rho (c_a c2) /\ sat_list rho (c_g c)).
+Proof. exact @C01_poly. Qed.
+Print Assumptions C01.
+
+(* the polyhedral primitives meet the documented contracts of the abstract TermList (for every tactic order) *)
+Theorem C01_domain_spec :
+  forall O : oracle, lp_spec 0 O -> @DomainSpec (poly_domain O) val pdt pwf pv.
+Proof. exact @poly_spec. Qed.
+Print Assumptions C01_domain_spec.
+
